@@ -818,3 +818,23 @@ V("the pencil of lines cut with the line x + y = 0 (0/0 for a vertex on that lin
   "        t = PlaneCollection.from_array(np.conj(from_point.array))\n", "        t = PlaneCollection.from_array(np.array([1, 1, 0]))\n", "missed")
 V("the pencil of lines cut with the line x = 0 (0/0 for a vertex on the y-axis)", "C11", OPERATORS,
   "        t = PlaneCollection.from_array(np.conj(from_point.array))\n", "        t = PlaneCollection.from_array(np.array([1, 0, 0]))\n", "E19.cr", "crossratio")
+
+
+# ------------------------------------------------------------------------------------------------ from_points evaluated in a centred frame (E19.pts with a point at infinity)
+_FP_OLD = ("        a, b, c, d, e = (\n            a.normalized_array,\n            b.normalized_array,\n            c.normalized_array,\n            d.normalized_array,\n"
+           "            e.normalized_array,\n        )\n")
+_FP_RET_OLD = "        return Conic(np.real_if_close(m + m.T), normalize_matrix=True)"
+
+
+def _fp_centred(shift: str) -> list:
+    new1 = ("        pts = np.stack([a.normalized_array, b.normalized_array, c.normalized_array, d.normalized_array, e.normalized_array])\n"
+            "        t = np.append(np.mean(pts[:, :-1], axis=0), 0)\n" + f"        a, b, c, d, e = {shift}\n")
+    new2 = ("        m = m + m.T\n        s = np.eye(3, dtype=m.dtype)\n        s[:, -1] -= t\n        m = matmul(matmul(s, m, transpose_a=True), s)\n"
+            "        return Conic(np.real_if_close(m), normalize_matrix=True)")
+    return [(CURVE, _FP_OLD, new1), (CURVE, _FP_RET_OLD, new2)]
+
+
+V("from_points in a centred frame: the shift is subtracted from points at infinity too", "C13", CURVE, _FP_OLD, _fp_centred("pts - t")[0][2], "E19.pts", "Conic.from_points",
+  extra=[_fp_centred("pts - t")[1]])
+V("twin: from_points in a centred frame, the shift scaled by the homogeneous coordinate", "C13", CURVE, _FP_OLD, _fp_centred("pts - pts[:, -1:] * t")[0][2], "silent",
+  extra=[_fp_centred("pts - t")[1]])
